@@ -354,6 +354,13 @@ static void check_value_store(cfg_t *ctx, int stored, struct pstate *ps)
 	V_ASSERT(cb_valid_lex_calls == 1, "[C14] validation happens before any later token is read");
 #endif
 #endif
+#ifdef CHK_C07
+	if (O->type == CFGT_PTR) {
+		V_ASSERT(n_freecb == (int)pre_nvalues, "[C07] replacing a user-defined pointer value hands the old value to the release function exactly once");
+		if (pre_nvalues == 1 && n_freecb == 1)
+			V_ASSERT(freed_ptr[0] == (void *)&ptr_cell_a, "[C07] the release function receives the old pointer");
+	}
+#endif
 #ifdef CHK_C15
 	if (pre_pending != NULL && PSTATE == 2) {
 		V_ASSERT(O->comment != NULL && strcmp(O->comment, pre_pending_txt) == 0, "[C15] the pending comment becomes the option's annotation");
@@ -766,6 +773,10 @@ static void post_step(cfg_t *cfg, struct pstate *ps)
 	unsigned i;
 
 	V_ASSERT(*ps->comment == NULL || V_R_OK(*ps->comment, 1), "[C07] the pending annotation is either absent or a live string (never freed and kept)");
+	if (pre_pending != NULL)
+		V_ASSERT(times_freed(pre_pending) == (*ps->comment == pre_pending ? 0 : 1), "[C07] a pending annotation is released exactly once, and only when it is no longer held");
+	if (held_title != NULL)
+		V_ASSERT(times_freed(held_title) == (*ps->opttitle == held_title ? 0 : 1), "[C07] a pending title is released exactly once, and only when it is no longer held");
 	V_ASSERT(*ps->opttitle == NULL || V_R_OK(*ps->opttitle, 1), "[C07] the pending title is either absent or a live string");
 	for (i = 0; i < 3 && i < ps->funcopt->nvalues; i++)
 		V_ASSERT(V_R_OK(ps->funcopt->values[i], sizeof(cfg_value_t)) && V_R_OK(ps->funcopt->values[i]->string, 1), "[C07] collected call arguments are live");
@@ -796,5 +807,20 @@ static void post_return(cfg_t *ctx, int rc)
 	dummy_ps.opttitle = &ot;
 	dummy_ps.funcopt = &fo;
 	V_ASSERT(rc == STATE_EOF || rc == STATE_ERROR || rc == STATE_CONTINUE, "[C02] the parser returns one of its three verdicts");
+#ifdef CHK_C07
+	/* whatever the invocation held temporarily has been released exactly once when it returns */
+	if (pre_pending != NULL)
+		V_ASSERT(times_freed(pre_pending) == 1, "[C07] a pending annotation is released exactly once when the invocation returns");
+	if (held_title != NULL)
+		V_ASSERT(times_freed(held_title) == 1, "[C07] a pending section title is released exactly once when the invocation returns");
+	{
+		int k;
+
+		for (k = 0; k < NARGS; k++) {
+			V_ASSERT(times_freed(held_arg_cell[k]) == 1, "[C07] collected call arguments are released exactly once when the call is aborted or made (cells)");
+			V_ASSERT(times_freed(held_arg_str[k]) == 1, "[C07] collected call arguments are released exactly once when the call is aborted or made (strings)");
+		}
+	}
+#endif
 	check_outcome(ctx, rc == STATE_EOF ? X_EOF : rc == STATE_ERROR ? X_ERR : X_SKIPRET, -1, &dummy_ps);
 }
